@@ -226,3 +226,127 @@ func TestPropRestart(t *testing.T) {
 		}
 	})
 }
+
+// runLongHistory emits n query events one after another (some overlapping), lets each
+// expire, and checks that nothing accumulates: one nil call per event, every listener
+// goroutine gone.
+func runLongHistory(durMs int, workers int, gaps []int, reqEvery int) (viol []string) {
+	var mu sync.Mutex
+	var exits int64
+	res.VerifHook = func(point string, arg interface{}) {
+		if point == "qlistener.exit" {
+			atomic.AddInt64(&exits, 1)
+		}
+	}
+	defer func() { res.VerifHook = nil }()
+	s := res.NewService("svc")
+	s.SetWorkerCount(workers)
+	s.SetLogger(nil)
+	s.SetQueryEventDuration(time.Duration(durMs) * time.Millisecond)
+	get := res.GetResource(func(r res.GetRequest) { r.NotFound() })
+	s.Handle("q.$id", res.Model, get)
+	s.Handle("qs.$id", res.Collection, get, res.Group("shared"))
+	conn := fakeconn.New()
+	var subjects []string
+	conn.OnPublish = func(e fakeconn.Entry) {
+		if strings.HasPrefix(e.Subject, "event.") && strings.HasSuffix(e.Subject, ".query") {
+			var p struct{ Subject string }
+			_ = json.Unmarshal(e.Data, &p)
+			mu.Lock()
+			subjects = append(subjects, p.Subject)
+			mu.Unlock()
+		}
+	}
+	served := make(chan struct{})
+	s.SetOnServe(func(*res.Service) { close(served) })
+	exited := make(chan struct{})
+	go func() { _ = s.Serve(conn); close(exited) }()
+	<-served
+	nils := make([]int, len(gaps))
+	reqs := 0
+	for i, gap := range gaps {
+		i := i
+		rid := []string{"svc.q.1", "svc.q.2", "svc.qs.1", "svc.qs.2"}[i%4]
+		done := make(chan struct{})
+		if err := s.With(rid, func(r res.Resource) {
+			defer close(done)
+			r.QueryEvent(func(qr res.QueryRequest) {
+				mu.Lock()
+				defer mu.Unlock()
+				if qr == nil {
+					nils[i]++
+					return
+				}
+				if nils[i] > 0 {
+					viol = append(viol, fmt.Sprintf("query event %d: request callback after the nil call", i))
+				}
+				qr.NotFound()
+			})
+		}); err != nil {
+			return append(viol, "With: "+err.Error())
+		}
+		<-done
+		synctest.Wait()
+		if reqEvery > 0 && i%reqEvery == 0 {
+			mu.Lock()
+			subj := subjects[len(subjects)-1]
+			mu.Unlock()
+			reply := fmt.Sprintf("_INBOX.lh%d", i)
+			n := conn.Deliver(subj, reply, []byte(`{"query":"a=b"}`))
+			synctest.Wait()
+			if got := len(conn.Published(reply)); n != 1 || got != 1 {
+				viol = append(viol, fmt.Sprintf("query event %d: request delivered to %d subscriptions, %d responses", i, n, got))
+			}
+			reqs++
+		}
+		time.Sleep(time.Duration(gap) * time.Millisecond)
+		synctest.Wait()
+	}
+	time.Sleep(time.Duration(durMs)*time.Millisecond + time.Second)
+	synctest.Wait()
+	mu.Lock()
+	for i, n := range nils {
+		if n != 1 {
+			viol = append(viol, fmt.Sprintf("query event %d of %d: callback invoked with nil %d times, expected exactly once", i, len(gaps), n))
+			break
+		}
+	}
+	mu.Unlock()
+	if e := atomic.LoadInt64(&exits); int(e) != len(gaps) {
+		viol = append(viol, fmt.Sprintf("%d query events expired but only %d listener goroutines exited", len(gaps), e))
+	}
+	// (subscription release is observed on a real NATS connection in TestRealNATSRelease;
+	// the in-memory connection cannot see Unsubscribe on the handles it returns)
+	_ = s.Shutdown()
+	<-exited
+	return viol
+}
+
+// TestPropLongHistory: long histories of expired query events.
+func TestPropLongHistory(t *testing.T) {
+	rapid.Check(t, func(rt *rapid.T) {
+		dur := rapid.SampledFrom([]int{50, 300, 1000}).Draw(rt, "dur")
+		workers := rapid.IntRange(1, 3).Draw(rt, "workers")
+		n := rapid.IntRange(20, 300).Draw(rt, "events")
+		gapPool := rapid.SampledFrom([][]int{{0, 1}, {0, 10, 60}, {dur, dur + 1, dur - 1}, {0, 0, 0, 2 * dur}}).Draw(rt, "gaps")
+		gaps := make([]int, n)
+		for i := range gaps {
+			gaps[i] = gapPool[rapid.IntRange(0, len(gapPool)-1).Draw(rt, "gap")]
+		}
+		reqEvery := rapid.SampledFrom([]int{0, 1, 3, 10}).Draw(rt, "reqEvery")
+		var viol []string
+		func() {
+			defer func() {
+				if v := recover(); v != nil {
+					viol = append(viol, fmt.Sprintf("bubble ended abnormally: %v", v))
+				}
+			}()
+			synctest.Test(t, func(*testing.T) { viol = runLongHistory(dur, workers, gaps, reqEvery) })
+		}()
+		ev.Case(n >= 100, evid.Hash("long", dur, workers, fmt.Sprint(gaps), reqEvery), "long-history")
+		ev.Add("long-history-query-events", int64(n))
+		if len(viol) > 0 {
+			rt.Fatalf("%s\n(%d query events, duration %dms, %d workers)", viol[0], n, dur, workers)
+		}
+	})
+}
